@@ -8,6 +8,9 @@ import gram as G
 from builder_ai import BuilderAI, RULE
 
 GRAMMAR = os.path.join(harness.REPO, "crates/parser/src/parser/grammar.pest")
+if os.environ.get("VERIF_FACTS_DIR") and os.path.exists(os.path.join(os.environ["VERIF_FACTS_DIR"], "_raw", "grammar.pest")):
+    # regression tooling: the grammar of the scratch tree the facts were extracted from
+    GRAMMAR = os.path.join(os.environ["VERIF_FACTS_DIR"], "_raw", "grammar.pest")
 B = "nitrogql_parser::parser::builder"
 TABLE = os.path.join(harness.VERIF, "tables", "field_fill.json")
 
